@@ -185,6 +185,8 @@ def run(rep, tier, seed, keep=False):
 
                     def pub(v):
                         def rec(r):
+                            if not (isinstance(r, dict) or hasattr(r, 'get')) or 'value' not in r:
+                                return [['s', cps('<not a group record: %r>' % (r,))], -9, -9]      # judged (and rejected) by the model
                             return [S(r['value']), r['start'], r['end']]
                         return {'pos': [rec(r) for r in v['pos']], 'named': [[n, rec(r)] for n, r in v['named']]}
                     v = eng.ev(rx + '.search($s, %s)' % sel, **kw)
